@@ -145,6 +145,13 @@ type frame struct {
 	phitemps         []value
 	visits           map[*ssa.BasicBlock]int
 	callpos          token.Pos
+	defers           []deferred
+}
+
+type deferred struct {
+	fn   value
+	args []value
+	pos  token.Pos
 }
 
 func (fr *frame) get(key ssa.Value) value {
@@ -589,8 +596,19 @@ func visitInstr(fr *frame, instr ssa.Instruction) continuation {
 		fr.block = nil
 		return kReturn
 
+	case *ssa.Defer:
+		// The call is evaluated now and runs at RunDefers (function exit), last registered first.
+		// A Go panic ends the path as an outcome of its own: deferred calls do not run then, and
+		// recover() has no semantics here.
+		fn, args := r.prepareCall(fr, instr, &instr.Call)
+		fr.defers = append(fr.defers, deferred{fn: fn, args: args, pos: instr.Pos()})
+
 	case *ssa.RunDefers:
-		// no defers are ever registered (Defer is refused)
+		for len(fr.defers) > 0 {
+			d := fr.defers[len(fr.defers)-1]
+			fr.defers = fr.defers[:len(fr.defers)-1]
+			r.call(fr, d.pos, d.fn, d.args)
+		}
 
 	case *ssa.Panic:
 		fr.panicAt(instr, "explicit-panic", toString(fr.get(instr.X)))
